@@ -385,7 +385,12 @@ def _gen(ctx, emit):
                 keyparts = [b"\0" + b32(0), b"\0" + b32(1), b"\0" + b32(ORDER - 1), b"\0" + b32(ORDER), b"\0" + b32(2 ** 256 - 1),
                             b"\x02" + b32(x_ok), b"\x03" + b32(x_ok), b"\x02" + b32(x_bad), b"\x04" + b32(x_ok), b"\x05" + b32(x_ok),
                             b"\x01" + b32(x_ok), b"\x02" + b32(P), b"\x02" + b32(P + 1), b"\x02" + b32(0), b"\0" + b32(5)[:-1], b"\0" + b32(5) + b"\0",
-                            b"\x02" + b32(x_ok)[:-1], b"", b"\0"]
+                            b"\x02" + b32(x_ok)[:-1], b"", b"\0",
+                            # key material that is a VALID public key in another encoding (65-byte uncompressed / hybrid SEC of the
+                            # real point): a decoder that leaves the length to the SEC parser takes the 110-byte payload for a key
+                            b"\x04" + b32(x_ok) + b32(good.public_pair()[1]),
+                            bytes([6 + (good.public_pair()[1] & 1)]) + b32(x_ok) + b32(good.public_pair()[1]),
+                            b"\x04" + b32(x_ok) + b32(P - good.public_pair()[1])]
                 for kp in keyparts:
                     every(name, b58c(name, pfx + head + kp), [kind + "_prv", kind + "_pub", kind, "hierarchical_key", "call"])
                 for cut in (0, 1, 4, 5, 8, 9, 12, 13, 40, 41, 44):
